@@ -78,6 +78,24 @@ pub fn run_case(c: &Sexp) -> R<Sexp> {
             let r = t.replace_variables(&ss);
             Ok(L(vec![a("ok"), L(vec![a("some"), sexp_of_ss(&ss)]), sexp_of_term(&r)]))
         },
+        // the resolution helpers of substitution_set.rs, each applied to (term, ss)
+        ("resolve", 4) => {
+            let t = term_of(&l[2])?;
+            let ss = ss_of(&l[3])?;
+            let opt = |o: Option<&Unifiable>| match o { None => a("none"), Some(x) => L(vec![a("some"), sexp_of_term(x)]) };
+            let b = |x: bool| a(if x { "1" } else { "0" });
+            let r = match &l[1].atom()?[..] {
+                "is-bound" => b(is_bound(&t, &ss)),
+                "get-binding" => opt(get_binding(&t, &ss)),
+                "is-ground-variable" => b(is_ground_variable(&t, &ss)),
+                "get-ground-term" => opt(get_ground_term(&t, &ss)),
+                "get-complex" => opt(get_complex(&t, &ss)),
+                "get-list" => opt(get_list(&t, &ss)),
+                "get-constant" => opt(get_constant(&t, &ss)),
+                f => return Err(format!("resolve: {}", f)),
+            };
+            Ok(ok(r))
+        },
         ("replace", 3) => {
             let t = term_of(&l[1])?;
             let ss = ss_of(&l[2])?;
